@@ -22,8 +22,8 @@ import ModbusProofs.Lemmas.Safe
       composing the loop's classification with the parsers' safety theorems of C10).
   What the model cannot exhibit: real time. "Returns within a bounded time" is the total read timer of the
   Go code; the harness measures it (a 10 s watchdog per call turns a call that does not come back into the
-  outcome HANG). Calls on an unconnected client or with a nil request return before the loop; they are
-  checked by the correspondence run only.
+  outcome HANG). Calls on an unconnected client or with a nil request return before the exchange
+  (`doCall`, `refused_before_exchange`: the nil request is refused first; no write, no read, no hook).
   Known finding KF-C08-fc17-prefix: FC17 announces 8 (TCP) / 2 (RTU) bytes although its reply is longer, so a
   prefix of a reply can already satisfy the loop and - over TCP, where nothing compares the MBAP length
   with what arrived - be returned as a successful, truncated response.
@@ -150,6 +150,33 @@ theorem call_never_panics_and_is_classified (k : ClientKind) (fl : Flusher) (hoo
 example : (doExchange .tcp .none false [] 11 false [.data [0, 1, 0, 0, 0, 5, 1, 3, 2, 0xAB, 0xCD]]).1 =
     .ok (.regs 3 1 2 [0xAB, 0xCD]) (some 1) := by decide +kernel
 example : (doExchange .tcp .none false [] 11 false []).1 = .err .timeout := by decide +kernel
+
+/-- before the exchange: a nil request is refused - first, whether or not the client is connected - and then an
+unconnected client; in both cases nothing is written, read or shown to a hook, whatever the transport would do -/
+theorem refused_before_exchange (k : ClientKind) (fl : Flusher) (hooks connected w : Bool) (req : Bytes × Nat)
+    (script : List Ev) :
+    doCall k fl hooks connected none w script = (.err .nilReq, []) ∧
+    doCall k fl hooks false (some req) w script = (.err .notConnected, []) ∧
+    doCall k fl hooks true (some req) w script = doExchange k fl hooks req.1 req.2 w script := by
+  simp [doCall]
+
+/-- the whole call including the two refusals: a response or a classified error, never a panic -/
+theorem doCall_classified (k : ClientKind) (fl : Flusher) (hooks connected w : Bool) (req : Option (Bytes × Nat))
+    (script : List Ev) :
+    (∃ r tid, (doCall k fl hooks connected req w script).1 = .ok r tid) ∨
+    ∃ e, (doCall k fl hooks connected req w script).1 = .err e ∧
+      (Classified e ∨ e = .nilReq ∨ e = .notConnected) := by
+  unfold doCall
+  cases req with
+  | none => right; exact ⟨.nilReq, rfl, Or.inr (Or.inl rfl)⟩
+  | some rq =>
+    cases connected with
+    | false => right; exact ⟨.notConnected, rfl, Or.inr (Or.inr rfl)⟩
+    | true =>
+      simp only [Bool.not_true, Bool.false_eq_true, if_false]
+      rcases call_never_panics_and_is_classified k fl hooks rq.1 rq.2 w script with h | ⟨e, h1, h2⟩
+      · exact Or.inl h
+      · exact Or.inr ⟨e, h1, Or.inl h2⟩
 
 /-- KF-C08-fc17-prefix: a stall after the first 12 bytes of a 15-byte FC17 reply is reported as success -/
 theorem kf_fc17_witness :
